@@ -331,6 +331,10 @@ fn execute_found(sc: &Scenario, acc: &mut Acc) -> Result<Vec<Found>, String> {
         }
         let _ = trace_len;
         acc.exhaustive_within_scenario = true;
+        if super::cap_plans(&mut plans, super::plan_cap(3 * w.store().nodes.len(), 2000), sc.seed) {
+            acc.exhaustive_within_scenario = false;
+            acc.hit("enumeration_capped");
+        }
     } else if !given_plan.is_faultless() {
         plans.push(given_plan.clone());
     }
